@@ -8,6 +8,7 @@ path condition; every `unknown` makes the whole check inconclusive.
 """
 from __future__ import annotations
 
+import os
 import time
 from typing import Any, Callable, Dict, List, Optional, Tuple
 
@@ -50,6 +51,7 @@ class Engine:
         self.MIN, self.MAX = -(1 << (W - 1)), (1 << (W - 1)) - 1
         self.timeout_ms = timeout_ms
         self.max_paths = max_paths
+        self.max_seconds = float(os.environ.get('FJV_MAX_SECONDS', 6 * 3600))     # wall-time bound of one exploration (never a verdict)
         self.enum_cap = enum_cap
         self.keep_const = keep_const
         self.solver = z3.Solver()
@@ -329,9 +331,12 @@ class Engine:
         _E = self
         try:
             self.pending = [[]]
+            t_start = time.time()
             while self.pending:
                 if self.paths >= self.max_paths:
                     raise Inconclusive(f'path bound {self.max_paths} reached')
+                if time.time() - t_start > self.max_seconds:
+                    raise Inconclusive(f'time bound {self.max_seconds:.0f}s of one exploration reached after {self.paths} paths')
                 self.decisions = self.pending.pop()
                 self.pos = 0
                 self.pc = []
